@@ -295,6 +295,14 @@ impl Decoder {
             Ok(digest.to_vec())
         }
 
+        /// the key length in bits: the crypt filter states it in bytes (a number from the file)
+        fn filter_key_bits(length: Option<u32>, dict_bits: u32) -> Result<u32> {
+            match length {
+                Some(n) => n.checked_mul(8).ok_or_else(|| other!("invalid crypt filter key length {}", n)),
+                None => Ok(dict_bits)
+            }
+        }
+
         let (key_bits, method) = match dict.v {
             1 => (40, CryptMethod::V2),
             2 => {
@@ -312,13 +320,13 @@ impl Decoder {
 
                 match default.method {
                     CryptMethod::V2 => (
-                        default.length.map(|n| 8 * n).unwrap_or(dict.bits),
+                        filter_key_bits(default.length, dict.bits)?,
                         default.method,
                     ),
                     // the key of AESV2 has 128 bits, whatever /Length says or does not say
                     CryptMethod::AESV2 => (128, default.method),
                     CryptMethod::AESV3 if dict.v == 5 => (
-                        default.length.map(|n| 8 * n).unwrap_or(dict.bits),
+                        filter_key_bits(default.length, dict.bits)?,
                         default.method,
                     ),
                     m => err!(other!("unimplemented crypt method {:?}", m)),
